@@ -703,7 +703,8 @@ class Frame(object):
             v = self.add(cur, rhs)
         elif isinstance(node.op, ast.BitOr) and isinstance(node.target, ast.Name) and \
                 not (isinstance(cur, Const) and isinstance(rhs, Const)):
-            v = Sym('(%s | %s)' % (render(cur), render(rhs)))
+            v = Sym('(%s | %s)' % (render(cur), render(rhs)), types=self._or_types(cur))
+            v.or_self = v.types is not None
             st.events.append(('ior', render(cur), render(rhs), node.lineno))
         else:
             v = self.binop(node.op, cur, rhs)
@@ -823,10 +824,20 @@ class Frame(object):
             outs = fin
         return outs
 
-    def _iter_values(self, node, st, bname=None):
+    def _iter_values(self, node, st, bname=None, target=None):
         """Return a list of Vals if the iterable is statically enumerable, else None."""
         itv = self.ev(node, st)
         t = render(itv)
+        self._fuse = None
+        if isinstance(itv, EachV) and len(itv.elems) == 1 and isinstance(itv.elems[0], Sym) and itv.elems[0].text != itv.var \
+                and bname is not None and isinstance(target, ast.Name):
+            # iterating a mapping / projecting comprehension `(E(v) for v in coll if c)` is iterating coll (with the filter)
+            # with the loop variable bound to E(v): `for x in (g for k, g in coll if c)` = `for k, g in coll: if c: x = g`
+            roots = set(re.findall(r'\$[\d.]+', itv.var))
+            if len(roots) == 1 and (itv.var in roots or re.match(r'^\((%s_\d+(, )?)+\)$' % re.escape(next(iter(roots))), itv.var)):
+                pat = re.escape(next(iter(roots))) + r'(?!\d)(?!\.\d)'
+                self._fuse = (re.sub(pat, bname, itv.var), Sym(re.sub(pat, bname, itv.elems[0].text), nonnull=True))
+                return None, re.sub(pat, bname, itv.coll)
         if isinstance(itv, EachV) and len(itv.elems) == 1 and isinstance(itv.elems[0], Sym) and itv.elems[0].text == itv.var \
                 and bname is not None and re.match(r'^\$[\d.]+$', itv.var):
             # iterating a (filtered) identity comprehension is iterating the underlying collection (with the filter)
@@ -843,7 +854,7 @@ class Frame(object):
         return None, t
 
     def st_For(self, node, st):
-        vals, colltext = self._iter_values(node.iter, st, self._bname(node))
+        vals, colltext = self._iter_values(node.iter, st, self._bname(node), node.target)
         if vals is not None and isinstance(node.target, (ast.Tuple, ast.List)) and any(isinstance(v, EachV) for v in vals):
             vals = None     # a summarised segment of unknown length cannot be destructured element-wise: summarise this loop too
         if vals is not None:
@@ -883,13 +894,33 @@ class Frame(object):
 
     def _summarise_loop(self, node, st, colltext, vartext, target):
         before = st.fork()
+        fuse, self._fuse = getattr(self, '_fuse', None), None
         if target is not None:
-            vartext = self._assign_loopvars(target, st, node, self._bname(node))
+            if fuse is not None and isinstance(target, ast.Name):
+                vartext = fuse[0]
+                st.env[target.id] = fuse[1]
+            else:
+                vartext = self._assign_loopvars(target, st, node, self._bname(node))
             st.bound[self._bname(node)] = colltext.split(' if ')[0]       # the collection; a fused filter stays in the EACH text
         nyield = len(st.yields)
         body = self.block(node.body, st)
+        if getattr(self.sc, 'loop_observer', None) is not None:
+            # rules that reason about one iteration (which paths skip / attach / file) see the paths before they are merged
+            self.sc.loop_observer(self, node, colltext, vartext, before, body)
         outs = []
         normal = [s for s, status in body if status in ('normal', 'continue', 'break')]
+        statuses = [status for s, status in body if status in ('normal', 'continue', 'break')]
+        nfacts = len(before.facts)
+
+        def skip_filter(contributes):
+            """Paths of one iteration that add nothing to an accumulator only skip the element: `if c: continue` before the
+            append, a guarding `if`, and a filtered comprehension all denote EACH(v in coll if <cond>; delta).  Returns the
+            ' if <cond>' suffix for the paths that do contribute, '' when every path does, None when it cannot be expressed."""
+            if all(contributes):
+                return ''
+            if any(stt == 'break' for stt, c in zip(statuses, contributes) if not c):
+                return None                       # leaving the loop is not a filter
+            return path_filter([s.facts[nfacts:] for s, c in zip(normal, contributes) if c])
         for s, status in body:
             if status in ('return', 'raise'):
                 s.facts.append(('in loop over %s' % colltext, True, None))
@@ -915,13 +946,35 @@ class Frame(object):
                         uniq.append(d)
                 if uniq == [[]]:
                     continue
+                filt = ''
+                if len(uniq) == 2 and [] in uniq:
+                    filt = skip_filter([d != [] for d in deltas])
+                    if filt is None:
+                        filt = ''
+                    else:
+                        uniq = [d for d in uniq if d != []]
                 inner = uniq[0] if len(uniq) == 1 else [('ALT', uniq)]
                 cls = type(old)
                 if cls is Bytes:
-                    base.env[name] = Bytes(old.items + [('EACH', vartext, colltext, inner)])
+                    base.env[name] = Bytes(old.items + [('EACH', vartext, colltext + filt, inner)])
                 else:
-                    base.env[name] = Hasher(old.alg, old.items + [('EACH', vartext, colltext, inner)])
+                    base.env[name] = Hasher(old.alg, old.items + [('EACH', vartext, colltext + filt, inner)])
             elif isinstance(old, ListV):
+                grown = []
+                for s in normal:
+                    new = s.env.get(name)
+                    grown.append(new.elems[len(old.elems):] if isinstance(new, ListV) and len(new.elems) > len(old.elems) else [])
+                keys = [[render(e) for e in g] for g in grown]
+                uniq = []
+                for k in keys:
+                    if k not in uniq:
+                        uniq.append(k)
+                if len(uniq) == 2 and [] in uniq:
+                    filt = skip_filter([k != [] for k in keys])
+                    if filt is not None:
+                        g = next(g for g in grown if g)
+                        base.env[name] = ListV(old.elems + [EachV(vartext, colltext + filt, g)], old.kind)
+                        continue
                 new = base.env.get(name)
                 if isinstance(new, ListV) and len(new.elems) > len(old.elems):
                     base.env[name] = ListV(old.elems + [EachV(vartext, colltext, new.elems[len(old.elems):])], old.kind)
@@ -936,8 +989,15 @@ class Frame(object):
             if y not in ys:
                 ys.append(y)
         if ys and ys != [[]]:
+            filt = ''
+            if len(ys) == 2 and [] in ys:
+                filt = skip_filter([bool(s.yields[nyield:]) for s in normal])
+                if filt is None:
+                    filt = ''
+                else:
+                    ys = [y for y in ys if y]
             inner = ' '.join(ys[0]) if len(ys) == 1 else 'ALT(%s)' % ' | '.join(' '.join(y) for y in ys)
-            base.yields = base.yields[:nyield] + [Sym('EACH(%s in %s;%s)' % (vartext, colltext, inner))]
+            base.yields = base.yields[:nyield] + [Sym('EACH(%s in %s;%s)' % (vartext, colltext + filt, inner))]
         # calls / stores of all normal paths are kept (union, order of first path first)
         for s in normal[1:]:
             for c in s.calls:
@@ -1343,8 +1403,13 @@ class Frame(object):
         s2 = st.fork()
         gens = []
         for g in node.generators:
-            it = self._iter_values(g.iter, s2, self._bname(g))[1]
-            vt = self._assign_loopvars(g.target, s2, node, self._bname(g))
+            it = self._iter_values(g.iter, s2, self._bname(g), g.target)[1]
+            fuse, self._fuse = self._fuse, None
+            if fuse is not None:
+                vt = fuse[0]
+                s2.env[g.target.id] = fuse[1]
+            else:
+                vt = self._assign_loopvars(g.target, s2, node, self._bname(g))
             st.bound[self._bname(g)] = it.split(' if ')[0]
             s2.bound[self._bname(g)] = it.split(' if ')[0]
             conds = []
@@ -1460,7 +1525,27 @@ class Frame(object):
         r = self.ev(node.right, st)
         if isinstance(node.op, ast.Add):
             return self.add(l, r)
-        return self.binop(node.op, l, r)
+        v = self.binop(node.op, l, r)
+        if isinstance(node.op, ast.BitOr) and isinstance(v, Sym) and v.types is None:
+            v.types = self._or_types(l)
+            v.or_self = v.types is not None
+        return v
+
+    def _or_types(self, left):
+        """Type tags of `left | x` when left is an object of a repo class whose __or__ returns its receiver on every returning
+        path (the composition idiom `obj |= part`): the result is that object, so isinstance tests on it are decidable."""
+        if isinstance(left, Sym) and left.types is not None and getattr(left, 'or_self', False):
+            return left.types
+        cls = left.cls if isinstance(left, (Sym, Obj)) else None
+        if cls is None:
+            return None
+        fi = cls.find_method('__or__')
+        if fi is None or not fi.params:
+            return None
+        rets = [n for n in _preorder(fi.node) if isinstance(n, ast.Return)]
+        if not rets or not all(isinstance(n.value, ast.Name) and n.value.id == fi.params[0] for n in rets):
+            return None
+        return {cls.name}
 
     def add(self, l, r):
         if isinstance(l, Bytes) or isinstance(r, Bytes):
@@ -1784,6 +1869,11 @@ class Frame(object):
             if n in ('iter', 'list', 'tuple') and len(args) == 1 and isinstance(args[0], EachV) and not kwargs:
                 record(n)
                 return args[0]
+            if n == 'filter' and len(args) == 2 and not kwargs:
+                fv = self._filter_each(node, args, st)
+                if fv is not None:
+                    record(n)
+                    return fv
             if n == 'reversed' and len(args) == 1 and isinstance(args[0], ListV):
                 rev = []
                 for e in reversed(args[0].elems):
@@ -1805,6 +1895,35 @@ class Frame(object):
         ftext = self.text(func, st)
         record(ftext)
         return Sym('%s(%s)' % (ftext, self._argtext(args, kwargs)))
+
+    def _filter_each(self, node, args, st):
+        """filter(lambda v: c, it) / filter(<one-expression local function>, it) is the comprehension (v for v in it if c)."""
+        pred = node.args[0]
+        lam = None
+        if isinstance(pred, ast.Lambda):
+            lam = (pred.args, pred.body)
+        elif isinstance(args[0], Sym) and args[0].text.startswith('lambda '):
+            try:
+                x = ast.parse(args[0].text, mode='eval').body
+                lam = (x.args, x.body)
+            except SyntaxError:
+                lam = None
+        elif isinstance(args[0], FuncV) and args[0].fi.cls is None:
+            body = [b for b in args[0].fi.node.body if not (isinstance(b, ast.Expr) and isinstance(b.value, ast.Constant))]
+            if len(body) == 1 and isinstance(body[0], ast.Return) and body[0].value is not None:
+                lam = (args[0].fi.node.args, body[0].value)
+        if lam is None or len(lam[0].args) != 1 or lam[0].vararg or lam[0].kwarg or lam[0].kwonlyargs or lam[0].defaults:
+            return None
+        if not hasattr(self, 'lambda_index'):
+            self.lambda_index = {}
+        k = self.lambda_index.setdefault(id(node), len(self.bindex) + len(self.lambda_index) + 1)
+        bname = '$%d' % k if self.depth == 0 else '$%d.%d' % (self.depth, k)
+        s2 = st.fork()
+        s2.env[lam[0].args[0].arg] = Sym(bname, nonnull=True)
+        cond = self.cond_text(lam[1], s2)
+        it = render(args[1])
+        st.bound[bname] = it
+        return EachV(bname, '%s if %s' % (it, cond), [Sym(bname)])
 
     def _argtext(self, args, kwargs):
         parts = [render(a) for a in args] + ['%s=%s' % (k, render(v)) for k, v in kwargs.items()]
@@ -1959,6 +2078,55 @@ def _positional(fi, args, kwargs, bound):
         else:
             break
     return args, kwargs
+
+
+NEGOPS = {'==': '!=', '!=': '==', 'in': 'not in', 'not in': 'in', 'is': 'is not', 'is not': 'is'}
+
+
+def _fact_literal(f):
+    """Text of one path decision (cond_text, value, skeleton) as a condition that holds on the path."""
+    t, val, sk = f
+    if val:
+        return t
+    if sk is not None and sk[0] == 'not' and t.startswith('not '):
+        return t[4:]
+    if sk is not None and sk[0] == 'cmp' and sk[1] in NEGOPS and t == '(%s %s %s)' % (sk[2], sk[1], sk[3]):
+        return '(%s %s %s)' % (sk[2], NEGOPS[sk[1]], sk[3])
+    return 'not %s' % t
+
+
+def path_filter(factlists):
+    """' if c1 if c2' for the disjunction of the given paths (each a list of decisions); None when a decision is not a condition
+    of the element (exception edges).  Paths that differ in the value of one decision only are merged first."""
+    paths = []
+    for fl in factlists:
+        if any(len(f) < 3 or f[2] is None for f in fl):
+            return None
+        p = [(f[0], bool(f[1]), _fact_literal(f)) for f in fl]
+        if p not in paths:
+            paths.append(p)
+    changed = True
+    while changed and len(paths) > 1:
+        changed = False
+        for i in range(len(paths)):
+            for j in range(i + 1, len(paths)):
+                a, b = paths[i], paths[j]
+                if len(a) == len(b):
+                    diff = [k for k in range(len(a)) if a[k][:2] != b[k][:2]]
+                    if len(diff) == 1 and a[diff[0]][0] == b[diff[0]][0]:
+                        merged = a[:diff[0]] + a[diff[0] + 1:]
+                        paths = [p for k, p in enumerate(paths) if k not in (i, j)]
+                        if merged not in paths:
+                            paths.append(merged)
+                        changed = True
+                        break
+            if changed:
+                break
+    if any(not p for p in paths):
+        return ''
+    if len(paths) == 1:
+        return ''.join(' if ' + lit for _, _, lit in paths[0])
+    return ' if (%s)' % ' or '.join('(%s)' % ' and '.join(lit for _, _, lit in p) if len(p) > 1 else p[0][2] for p in paths)
 
 
 def _preorder(node):
